@@ -56,7 +56,8 @@ def seeds(quick):
     for f in ("tiny-macho", "bad_dotnet_pe", "mtxex.dll", "weird_rich", "0ca09bde7602769120fadc4f7a4147347a7a97271370583586c9e587fd396171", "6c2abf4b80a87e63eee2996e5cea8f004d49ec0c1806080fa72e960529cba14c",
               "e3d45a2865818756068757d7e319258fef40dad54532ee4355b86bc129f27345", "c6f9709feccf42f2d9e22057182fe185f177fb9daaa2649b4669a24f2ee7e3ba_0h_410h"):
         S.append((f, open(os.path.join(R, "tests/data", f), "rb").read()))
-    import dotnetgen
+    import dotnetgen, pegen
+    S.append(("synthetic-pe", pegen.build()))              # imports, delayed imports, exports + forwarder, resource tree + version info, debug dir, rich signature, certificate, overlay (lib/pegen.py)
     S.append(("synthetic-dotnet", dotnetgen.build()))      # TypeSpec chains, generics, nested classes, signatures: one edit away from reference cycles (lib/dotnetgen.py)
     S += [("empty", b""), ("one-byte", b"M"), ("MZ", b"MZ"), ("zeros", b"\0" * 4096), ("ff", b"\xff" * 512), ("elf-magic", b"\x7fELF" + b"\x01" * 60)]
     if not quick:
@@ -128,13 +129,13 @@ def run_chunk(arg):
             cmds += ["live", "scan target=r0 via=mem ml=0 dump=1 brief=1 data=@5 " + m]
         cmds.append("live")
         try:
-            rep = w.batch(cmds, timeout=180)
+            rep = w.batch(cmds, timeout=120)
         except (yv.WorkerDied, yv.WorkerHang) as e:
             # find the culprit by running the part one by one on a fresh worker
             yv.drop_worker(VAR); w = fresh()
             for m in part:
                 try:
-                    r = w.batch(["live", "scan target=r0 via=mem ml=0 dump=1 brief=1 data=@5 " + m, "live"], timeout=180)
+                    r = w.batch(["live", "scan target=r0 via=mem ml=0 dump=1 brief=1 data=@5 " + m, "live"], timeout=45)     # alone, >100x the normal time of one scan
                     out.append((m, None, sig_of(r[1]), r[2]["live"] - r[0]["live"]))
                 except (yv.WorkerDied, yv.WorkerHang) as e2:
                     err = getattr(e2, "err", "")
@@ -251,7 +252,7 @@ def main():
     ck.cov["rules"] = nrules
     ck.sample(dict(seed=cover[0]["seed"], case="set=60:ff (one byte of the seed replaced), scanned with %d rules calling every module function" % nrules))
     ck.cov["rule"] = ("a case = one seed with one deviation (truncation length / byte value at a live position / 16- or 32-bit field value near a live position; thorough: pairs); "
-                      "seeds = in-tree executables of every module's format + a synthetic .NET image with recursive metadata (lib/dotnetgen.py) + degenerate inputs; live = byte positions whose flip changes a module's object dump or a verdict "
+                      "seeds = in-tree executables of every module's format + a synthetic PE with every table pe.c walks (lib/pegen.py) + a synthetic .NET image with recursive metadata (lib/dotnetgen.py) + degenerate inputs; live = byte positions whose flip changes a module's object dump or a verdict "
                       "(measured); non-trivial = cases at live positions; nothing is claimed beyond this neighbourhood")
     ck.assumptions += ["exhaustive for 1 deviation over the boundary alphabet (and the defined 2-closure in the thorough tier) - inputs needing three coordinated edits are outside",
                        "UBSan groups alignment, signed-integer-overflow, shift-base, function, nonnull-attribute, pointer-overflow are disabled (DESIGN 5)"]
